@@ -15,6 +15,9 @@ CONSTANTS
   FixNullRequired = FALSE
   HasValidator = TRUE
   NilPointerSkipsValidation = TRUE
+  CtxChoices = {"live"}
+  GateChoices = {FALSE}
+  SilentOnCtx = {}
 INIT TableInit
 NEXT TableNext
 
